@@ -56,7 +56,11 @@ func (c *FSControl) Pause() func() {
 	return func() { c.paused.Store(false) }
 }
 
-func fsPoint(kind, path string, effect bool) error {
+func fsPoint(kind, path string, effect bool) error { return fsPointX(kind, path, effect, false) }
+
+// fsPointX: noFail suppresses error injection for a call the real file system would refuse anyway
+// (exclusive create or link onto an existing name answers EEXIST whatever else is wrong with the disk).
+func fsPointX(kind, path string, effect, noFail bool) error {
 	c := fsCtl.Load()
 	if c == nil || c.paused.Load() {
 		return nil
@@ -74,13 +78,15 @@ func fsPoint(kind, path string, effect bool) error {
 	if (effect && c.YieldEffects) || (!effect && c.YieldAccesses) {
 		Yield("fs." + kind + " " + fsLabel(path))
 	}
-	if c.Fail != nil {
+	if c.Fail != nil && !noFail {
 		if err := c.Fail(kind, path); err != nil {
 			return &fs.PathError{Op: kind, Path: path, Err: err}
 		}
 	}
 	return nil
 }
+
+func fsExists(path string) bool { _, err := os.Lstat(path); return err == nil }
 
 // fsLabel is a canonical short name of a path (parent dir + base), stable across scratch dirs.
 func fsLabel(path string) string {
@@ -169,7 +175,7 @@ func FSOpenFile(path string, flag int, perm os.FileMode) (*File, error) {
 	if creating {
 		kind = "create"
 	}
-	if err := fsPoint(kind, path, creating); err != nil {
+	if err := fsPointX(kind, path, creating, creating && flag&os.O_EXCL != 0 && fsExists(path)); err != nil {
 		return nil, err
 	}
 	f, err := os.OpenFile(path, flag, perm)
@@ -200,14 +206,14 @@ func FSRemoveAll(path string) error {
 }
 
 func FSLink(oldname, newname string) error {
-	if err := fsPoint("link", newname, true); err != nil {
+	if err := fsPointX("link", newname, true, fsExists(newname)); err != nil {
 		return err
 	}
 	return os.Link(oldname, newname)
 }
 
 func FSSymlink(oldname, newname string) error {
-	if err := fsPoint("symlink", newname, true); err != nil {
+	if err := fsPointX("symlink", newname, true, fsExists(newname)); err != nil {
 		return err
 	}
 	return os.Symlink(oldname, newname)
